@@ -1050,11 +1050,16 @@ def gen_syscall(rng):
     re-entrancy); harness and model cap the number of calls per scenario, so every scenario terminates."""
     out = ["mode syscall"]
     ranks = [(k, key) for k in "fns" for key in range(3)]
+    # a third of the scenarios also address the `syscall` function items through raw names (`SysName::new_raw::<S>(0)`,
+    # named keys 4-6): the same function type under a key of another class must have its own state
+    raw = rng.random() < 0.33
+    def regkey(): return rng.randrange(4, 7) if raw and rng.random() < 0.6 else rng.randrange(3)
     def call(min_rank):
         cand = ranks[min_rank:]
         if not cand: return None
         k, key = rng.choice(cand)
         if k == "s": key = rng.randrange(4)
+        if k == "f" and raw and rng.random() < 0.2: return "m %d %d" % (key + 4, rng.randrange(1, 9))   # the raw name of the same function item
         if k == "f" and rng.random() < 0.25: k = "o"      # syscall_once of the same function: fresh state, not cached
         if k == "n" and rng.random() < 0.3: k = "m"       # named_syscall_direct: by name only, fails if unregistered / running
         return "%s %d %d" % (k, key, rng.randrange(1, 9))
@@ -1068,7 +1073,7 @@ def gen_syscall(rng):
                 # syscall / named_syscall scripts only call higher-ranked keys (no cycles through re-entrant fresh state);
                 # spawned systems may call anything: a cycle through a running spawned system is cut by its error
                 c = call(0 if (k == "s" or (run >= 1 and rng.random() < 0.35)) else r + 1)
-                if x >= 0.96: ops.append(rng.choice(["g %d", "v %d"]) % rng.randrange(3))
+                if x >= 0.96: ops.append(rng.choice(["g %d", "g %d", "v %d"]) % regkey())
                 elif x >= 0.9 or (k == "s" and x >= 0.8): ops.append("x %d" % rng.randrange(4))
                 elif c is None or x >= 0.75: ops.append("w %d" % rng.randrange(100))
                 elif x < 0.3 and excl: ops.append("d " + c)
@@ -1084,7 +1089,7 @@ def gen_syscall(rng):
     for _ in range(rng.randint(4, 14)):
         x = rng.random()
         if x < 0.74: out.append("top call " + call(0))
-        elif x < 0.8: out.append(rng.choice(["top reg %d", "top revoke %d"]) % rng.randrange(3))
+        elif x < 0.8 or (raw and x < 0.86): out.append(rng.choice(["top reg %d", "top reg %d", "top revoke %d"]) % regkey())
         elif x < 0.9: out.append("top spawn %d" % rng.randrange(3))
         else: out.append("top despawn %d" % rng.randrange(4))
     return "\n".join(out) + "\n"
